@@ -22,7 +22,7 @@ RULE = ('schemas with 0-8 references over all kinds x {inline, standalone} x {si
         'from the abstract references. non-trivial: >= 2 references of different kinds, or an inline "<", or a '
         'composite or many-to-many reference; distinct by sha1 of the SQL text')
 ASSUMPTIONS = ['names and actions of the two foreign keys of a many-to-many join table are not constrained (statement is silent)']
-FLOORS = {'quick': {'inline_lt': 10, 'composite_ref': 10, 'm2m': 10, 'named_ref': 10, 'actions': 10, 'cross_schema_ref': 10,
+FLOORS = {'quick': {'same_name_two_schemas': 100, 'inline_lt': 10, 'composite_ref': 10, 'm2m': 10, 'named_ref': 10, 'actions': 10, 'cross_schema_ref': 10,
                     'inline_composite_api': 5},
           'thorough': {'inline_lt': 100, 'composite_ref': 100, 'm2m': 100, 'named_ref': 100, 'actions': 100,
                        'cross_schema_ref': 100, 'inline_composite_api': 50}}
